@@ -56,7 +56,7 @@ def spellings():
 
 
 SPELL = spellings()
-POS = ['operand', 'sum', 'sum_twice', 'countifs', 'index', 'plus_other_sheet']
+POS = ['operand', 'sum', 'sum_twice', 'countifs', 'index', 'plus_other_sheet', 'twin_sheets']
 
 
 def _job(fsheet, timeout, kfs):
@@ -65,13 +65,13 @@ def _job(fsheet, timeout, kfs):
     d = tempfile.mkdtemp(prefix='c02_', dir=build.scratch_dir(os.path.join(os.environ.get('VERIF_PID', 'misc'), 'c02')))
     cache = {}
 
-    def evaluate(formula):
-        if formula in cache:
-            return cache[formula]
+    def evaluate(formula, twin=None):
+        if (formula, twin) in cache:
+            return cache[(formula, twin)]
         sheets = []
         for s, t in enumerate(TITLES):
             cells = {(c, r): val(s, c, r) for c in range(4) for r in range(4)}
-            if s == fsheet:
+            if s == fsheet or s == twin:
                 cells[(6, 0)] = formula
             sheets.append((t, cells))
         p = build.write_xlsx(os.path.join(d, 'w.xlsx'), sheets)
@@ -79,12 +79,13 @@ def _job(fsheet, timeout, kfs):
             src = Parser().disable_safety_check().set_excel_file_path(p).get_translation()
             ns = {}
             exec(compile(src, 'gen_c02.py', 'exec'), ns)
-            out = ('val', ns['ExcelInPython']().exec_function_in(f'_{fsheet}_6_0'))
+            inst = ns['ExcelInPython']()
+            out = ('val', inst.exec_function_in(f'_{fsheet}_6_0')) if twin is None else ('val', inst.exec_function_in(f'_{fsheet}_6_0'), inst.exec_function_in(f'_{twin}_6_0'))
         except E2PyclException as e:
             out = ('rejected', type(e).__name__)
         except Exception as e:
             out = ('foreign', f'{type(e).__name__}: {e}')
-        cache[formula] = out
+        cache[(formula, twin)] = out
         return out
 
     def case(k, pos, i, j):
@@ -105,6 +106,18 @@ def _job(fsheet, timeout, kfs):
             core = txt.split('!')[-1]
             osheet = 2 if (fsheet if s is None else s) != 2 else 1
             formula = f"=SUM({txt})+SUM('{TITLES[osheet]}'!{core})"
+        elif pos == 'twin_sheets':
+            if s == 'unknown':
+                return None
+            # the identical formula text in the same cell of two sheets of one workbook: each denotes its own sheet (or both the named one)
+            twin = (fsheet + 1 + i % 3) % 4
+            formula = f'=SUM({txt})'
+            got = evaluate(formula, twin)
+            e1 = sum(val(*x) for row in block(rect, fsheet if s is None else s) for x in row)
+            e2_ = sum(val(*x) for row in block(rect, twin if s is None else s) for x in row)
+            if got != ('val', e1, e2_):
+                return f'{formula} written on sheets {TITLES[fsheet]!r} and {TITLES[twin]!r} -> {got}, the references denote {e1} and {e2_}'
+            return None
         elif pos == 'countifs':
             if ':' not in txt:
                 return None
@@ -154,7 +167,8 @@ def _job(fsheet, timeout, kfs):
     def run(ex):
         k, p, i, j = z3.Ints('k p i j')
         ex.assume(z3.And(k >= 0, k < len(SPELL), p >= 0, p < len(POS), i >= 0, i < 4, j >= 0, j < 4))
-        ex.assume(z3.Implies(p != 4, z3.And(i == 0, j == 0)))
+        ex.assume(z3.Implies(z3.And(p != 4, p != 6), z3.And(i == 0, j == 0)))
+        ex.assume(z3.Implies(p == 6, z3.And(i < 3, j == 0)))
         kv, pv, iv, jv = [ex.concretize(v) for v in (k, p, i, j)]
         try:
             out = case(kv, POS[pv], iv, jv)
@@ -302,7 +316,7 @@ def run(report, tier, seed):
             report.sample(dict(job=cname, texts=r['paths'], secs=r['secs']))
     report.encoded('Excel.get_matrix', 'Excel.get_range', 'Excel._fill_cell', 'MatrixOfCellIdentifiersTokenTranslator.translate', 'CellIdentifierRangeTokenTranslator.translate',
                    'CellTranslator.translate', 'handle_cell')
-    report.bound(f'(a) {len(SPELL)} spellings x 4 formula sheets x 6 positions (INDEX with every (row, column) of the area; the same area text on two sheets in one formula); 4x4 blocks of distinct powers of two on 4 sheets (one titled "1"); '
+    report.bound(f'(a) {len(SPELL)} spellings x 4 formula sheets x 7 positions (INDEX with every (row, column) of the area; the same area text on two sheets in one formula; the identical formula on two sheets of one workbook); 4x4 blocks of distinct powers of two on 4 sheets (one titled "1"); '
                  '(b) reference texts assembled from 5 title spellings x all $ combinations x 9 boundary columns (A..ZZZ) x 6 boundary rows x 14 trailing characters; all 18 278 column names concretely')
     report.assume('(a) the solver enumerates the finite case space; each case runs natively on a real .xlsx',
                   '(b) E1 (symbolic regex subject) does not finish these harnesses (measured: thousands of paths, one per character value); the solver enumerates a '
